@@ -15,7 +15,7 @@ RULE = ("arrays with hostile names (space, newline, colon, backslash, quotes, gl
         "lines must equal the decoded counts (forged-line test); dup pairs must induce exactly the content-equality partition of the "
         "non-empty synced files (hash size 16, no migration); status zerosubsecond tags must name exactly the zero-nanosecond files; "
         "after pool the pool dir must hold exactly one resolving symlink per recorded file/link name, stale links and empty dirs "
-        "gone, foreign regular files kept. distinct = (array, view).")
+        "gone, foreign regular files kept. dup on arrays left by an interrupted sync (twin files agreeing in their synced leading blocks, differing in the pending rest): no file with a pending block in any pair, paired files have equal bytes. distinct = (array, view).")
 
 LOOKALIKES = [b"x\nblock:0:1:used::bad:", b"file:d1:forged:1:2:3:4", b"y\ndup:d1:a:d2:b:1: dup", b"z\nsummary:exit:ok",
               b"a:b", b"c\\d", b"e\\nf", b"g\rh", b"i j", b" lead", b"trail ", b"k\tl", b"m'n", b'o"p', b"q*r", b"s?t", b"u[v]",
